@@ -146,7 +146,7 @@ static Result run_case_plain(const Program& p, Stats& st, unsigned guards, bool 
     {
         close(fds[0]);
         g_crash_path.clear();
-        alarm(60);  // a runaway case (garbage size, endless loop) must not stall the campaign: SIGALRM ends the child
+        alarm(20);  // a runaway case (garbage size, endless loop) must not stall the campaign: SIGALRM ends the child
         Stats cst;
         Verdict v = cfg.run(g_prop, p, cst, guards);
         std::string out = v.ok ? "OK" : ("FAIL\n" + v.code + "\n" + std::to_string(v.op_index) + "\n" + v.msg);
